@@ -24,6 +24,24 @@
 #include "cmi_config.h"
 #include "cmi_memutils.h"
 
+#if defined(CIMBA_VERIF)
+  #if defined(__SANITIZE_ADDRESS__)
+    #define CMI_VERIF_ASAN 1
+  #elif defined(__has_feature)
+    #if __has_feature(address_sanitizer)
+      #define CMI_VERIF_ASAN 1
+    #endif
+  #endif
+#endif
+#if defined(CMI_VERIF_ASAN)
+/* Verification hook: tell AddressSanitizer about coroutine stack switches */
+extern void __sanitizer_start_switch_fiber(void **fake_stack_save,
+                                           const void *bottom, size_t size);
+extern void __sanitizer_finish_switch_fiber(void *fake_stack_save,
+                                            const void **bottom_old,
+                                            size_t *size_old);
+#endif
+
 /* The main and current coroutine pointers */
 CMB_THREAD_LOCAL struct cmi_coroutine *coroutine_main = NULL;
 CMB_THREAD_LOCAL struct cmi_coroutine *coroutine_current = NULL;
@@ -249,7 +267,18 @@ extern void *cmi_coroutine_transfer(struct cmi_coroutine *to, void *msg)
     /* The actual context switch happens in assembly */
     void **fromstk = (void **)&(from->stack_pointer);
     void **tostk = (void **)&(to->stack_pointer);
+#if defined(CMI_VERIF_ASAN)
+    void *verif_fake_stack = NULL;
+    const unsigned char *verif_bottom = (to->stack != NULL) ? to->stack
+                                                            : to->stack_limit;
+    __sanitizer_start_switch_fiber(
+            (from->status == CMI_COROUTINE_FINISHED) ? NULL : &verif_fake_stack,
+            verif_bottom, (size_t)(to->stack_base - verif_bottom));
+#endif
     void *ret = cmi_coroutine_context_switch(fromstk, tostk, msg);
+#if defined(CMI_VERIF_ASAN)
+    __sanitizer_finish_switch_fiber(verif_fake_stack, NULL, NULL);
+#endif
 
     /* Possibly much later, when control has returned here again */
     cmb_assert_debug(cmi_coroutine_stack_valid(to));
